@@ -29,6 +29,8 @@ class Ledger(object):
         self.stepped = 0                 # Steps that performed an iteration (incl. the initial evaluation)
         self.refused = 0                 # Steps that returned a stop message without iterating
         self.G = None; self.E = None     # effective limits per ledger (absolute totals), None = not set by the harness
+        self.Gdef = None; self.Edef = None   # documented default limits in force where the harness gave None (absolute totals)
+        self.model_defaults = False      # judge the documented defaults too (class default_limits)
         self.term = None                 # termination object installed by the harness
         self.exit_requested = False
         self.exit_at_call = None         # deliver SIGINT inside the k-th cost call from now
@@ -79,11 +81,32 @@ class Ledger(object):
         return {'generation_limit': g, 'evaluation_limit': e, 'termination': t, 'exit_requested': self.exit_requested}
 
     # ---------------------------------------------------------------- bracketed Step
+    def effective_limits(self):
+        G = self.G if self.G is not None else (self.Gdef if self.model_defaults else None)
+        E = self.E if self.E is not None else (self.Edef if self.model_defaults else None)
+        return G, E
+
     def limits_hold(self, s):
         gens = max(0, self.stepped - 1)
-        g = self.G is not None and gens >= self.G
-        e = self.E is not None and self.probe.n >= self.E
+        G, E = self.effective_limits()
+        g = G is not None and gens >= G
+        e = E is not None and self.probe.n >= E
         return g, e
+
+    def set_limits(self, s, G, E, new):
+        """ledger side of SetEvaluationLimits: totals, or counted from now with new=True; a limit left as None is the solver's documented
+        default  nDim * nPop * scale  (scale: DE 10/1000, Nelder-Mead 200/200, Powell 1000/1000 for iterations/evaluations), likewise
+        counted from now with new=True"""
+        gens_true, evals_true = max(0, self.stepped - 1), self.probe.n
+        self.G = None if G is None else (G + (gens_true if new else 0))
+        self.E = None if E is None else (E + (evals_true if new else 0))
+        isc, esc = {'de': (10, 1000), 'de2': (10, 1000), 'nm': (200, 200), 'powell': (1000, 1000)}[self.cfg['solver']]
+        base = self.cfg['dim'] * int(s.nPop)
+        self.Gdef = base * isc + (gens_true if new else 0)
+        self.Edef = base * esc + (evals_true if new else 0)
+        # mystic resolves a default "counted from now" at its first termination test after the call; before the very first Step that
+        # test comes after the initial evaluation, which is therefore not counted against the default
+        self._def_pending = (base * isc, base * esc) if (new and self.stepped == 0) else None
 
     def step(self, s, real_step, **kw):
         o = self.obs
@@ -104,6 +127,9 @@ class Ledger(object):
         if iterated:
             self.stepped += 1
             self.dirty = False
+            if getattr(self, '_def_pending', None) and self.stepped == 1:
+                self.Gdef, self.Edef = self._def_pending[0] + 0, self._def_pending[1] + self.probe.n
+                self._def_pending = None
             sn = K.snap(s)
             self.step_records.append((sn['best'], sn['bestE']))
             if self.in_solve: self.steps_in_solve += 1
@@ -332,6 +358,39 @@ def gen_program(rng, focus):
     return cfg
 
 
+def gen_default_limits_program(rng):
+    """small solvers whose DOCUMENTED default limits (nDim*nPop*scale) are reachable: limits left as None - as totals and with new=True,
+    before the first Step and after some Steps - must stop the run exactly there"""
+    solver = rng.choice(['de', 'de2', 'nm', 'nm', 'powell'])
+    dim = 1 if solver == 'powell' else rng.randint(1, 2)
+    cfg = {'solver': solver, 'dim': dim, 'x0': [round(rng.uniform(-3, 3), 2) for _ in range(dim)]}
+    if solver in ('de', 'de2'):
+        cfg.update(npop=rng.choice([4, 5]), strategy=rng.choice(['Best1Bin', 'Rand1Exp', 'Best1Exp']), CR=0.9, F=0.8, init='random',
+                   init_lo=[v - 2.0 for v in cfg['x0']], init_hi=[v + 2.0 for v in cfg['x0']])
+    cfg['cost'] = K.gen_cost(rng, dim, ['sphere', 'abs', 'step', 'illquad'])
+    cfg['stepmon_kind'] = rng.choice(['plain', 'default']); cfg['evalmon_kind'] = rng.choice(['plain', 'none'])
+    cfg['term'] = ['never']
+    ops = []
+    if rng.random() < 0.5: ops.append(['step', rng.randint(1, 6)])
+    big = rng.choice([None, None, 10 ** 7])
+    mode = rng.choice(['new', 'new', 'total', 'untouched'])
+    if mode == 'untouched' and not ops:
+        ops.append(['solve_default'])                      # Solve on a solver whose limits were never set
+    elif mode == 'untouched':
+        ops.append(['limits', None, big, False]); ops.append(['solve_default'])
+    else:
+        if rng.random() < 0.5:
+            ops.append(['limits', None, big, mode == 'new']); ops.append(['solve_default'])
+        else:
+            ops.append(['solve', None, big, mode == 'new'])
+    if rng.random() < 0.4:                                 # and once more, counted from the stop
+        ops.append(['solve', None, big, True])
+    cfg['ops'] = ops
+    cfg['savefreq'] = False
+    cfg['model_defaults'] = True
+    return cfg
+
+
 def make_monitor(kind, led, tag):
     from mystic.monitors import Monitor, VerboseMonitor, LoggingMonitor
     if kind in ('plain',): return Monitor()
@@ -350,6 +409,8 @@ def run_program(cfg, obs, focus, tmpdir):
     led = Ledger(obs, cfg, tmpdir)
     s = K.new_solver(cfg)
     led.solver = s
+    led.model_defaults = bool(cfg.get('model_defaults'))
+    led.set_limits(s, None, None, False)        # nothing set yet: the documented defaults bound the totals
     K.init_points(s, cfg)
     sm = make_monitor(cfg['stepmon_kind'], led, 'step')
     if sm is not None: s.SetGenerationMonitor(sm)
@@ -388,14 +449,14 @@ def run_program(cfg, obs, focus, tmpdir):
                     if msg:
                         led.at_stop(s)
                         break
-            elif k in ('solve', 'solve_exit'):
-                G, E = op[1], op[2]
-                new = op[3] if k == 'solve' else True
+            elif k in ('solve', 'solve_exit', 'solve_default'):
                 was_stopped = bool(led.stop_msg) and bool(s.Terminated())
-                s.SetEvaluationLimits(G, E, new=new)
                 gens_true, evals_true = max(0, led.stepped - 1), led.probe.n
-                led.G = None if G is None else (G + (gens_true if new else 0))
-                led.E = None if E is None else (E + (evals_true if new else 0))
+                if k != 'solve_default':           # 'solve_default': Solve under whatever limits are in force (possibly never set)
+                    G, E = op[1], op[2]
+                    new = op[3] if k == 'solve' else True
+                    s.SetEvaluationLimits(G, E, new=new)
+                    led.set_limits(s, G, E, new)
                 if k == 'solve_exit':
                     s.enable_signal_handler()
                     if op[3] == 'callback': led.exit_in_callback = op[4]
@@ -404,6 +465,7 @@ def run_program(cfg, obs, focus, tmpdir):
                 bound = 4
                 if led.G is not None: bound += max(0, led.G - gens_true) + 1
                 elif led.E is not None: bound += max(0, led.E - evals_true) + 1
+                elif led.model_defaults: bound += max(0, led.Gdef - gens_true) + 1
                 guard = {'n': 0}
                 orig_step = s.Step
                 def guarded(*a, _orig=orig_step, **kws):
@@ -421,10 +483,10 @@ def run_program(cfg, obs, focus, tmpdir):
                     s.Step = orig_step
                     led.in_solve = False
                     led.exit_at_call = led.exit_in_callback = None
-                if led.G is None and isinstance(getattr(s, '_maxiter', None), (int, float, np.integer)):
+                if led.G is None and led.Gdef is not None:
                     # only an evaluation limit was given: iterations that evaluate nothing (every candidate rejected by the box) are
                     # bounded by the solver's documented default generation limit instead
-                    bound = max(bound, int(s._maxiter) - gens_true + 4)
+                    bound = max(bound, int(led.Gdef) - gens_true + 4)
                 obs.check(returned and guard['n'] <= bound, 'c05:Solve returns within the bounded number of Steps', steps=guard['n'], bound=bound,
                           G=led.G, E=led.E, solver=cfg['solver'], ops=done)
                 if returned:
@@ -440,9 +502,7 @@ def run_program(cfg, obs, focus, tmpdir):
             elif k == 'limits':
                 G, E, new = op[1], op[2], op[3]
                 s.SetEvaluationLimits(G, E, new=new)
-                gens_true, evals_true = max(0, led.stepped - 1), led.probe.n
-                led.G = None if G is None else (G + (gens_true if new else 0))
-                led.E = None if E is None else (E + (evals_true if new else 0))
+                led.set_limits(s, G, E, new)
             elif k == 'penalty':
                 s.SetPenalty(K.make_penalty(op[1]) if op[1] else None); nreconf += 1
                 led.segment_start = len(s.energy_history); led.reconfigured = True; led.dirty = True
@@ -507,7 +567,7 @@ def run_program(cfg, obs, focus, tmpdir):
                     real_step = tap_step(s, led)
                     restarts += 1
                     obs.event('restarts:' + mode)
-            if k not in ('step', 'solve', 'solve_exit'):
+            if k not in ('step', 'solve', 'solve_exit', 'solve_default'):
                 led.after_call(s, k)
             if nreconf and led.stepped > before: iters_after_reconf += led.stepped - before
     obs.event('api_calls', len(done))
